@@ -402,8 +402,9 @@ def jacobi_sum_clenshaw_der(s, alpha, beta, x, j=1, alphas=None):
     M = len(s) - 1
     # seed the first sweep of alpha, for j=0, by side effect
     jacobi_sum_clenshaw(s, alpha, beta, x, alphas=alphas[0])
-    # now loop over increasing j
-    for jj in range(1, j+1):
+    # now loop over increasing j; a sum of degree M has no derivative beyond
+    # the M-th, those rows stay zero
+    for jj in range(1, min(j, M)+1):
         # more twisted notation - follow Forbes' paper, but our
         # idea of b and a are swapped
         a, *_ = recurrence_abc(M-jj, alpha, beta)
